@@ -24,6 +24,17 @@ InitState(cfg) == [rec |-> [k \in CertKeys |-> FALSE], cert |-> [k \in CertKeys 
 
 Out(res, st) == [res |-> res, st |-> st]
 
+\* C07 (node side): a node that created credentials but is not yet authorised is "pending"
+DoNewNode(st, o) == IF st.cert[o.k] # "none" THEN Out("skip", st) ELSE Out("ok", [st EXCEPT !.cert[o.k] = "pending"])
+DoAuthorizePending(st, o) ==
+  IF st.cert[o.k] = "pending" /\ ~st.rec[o.k] THEN Out("ok", [st EXCEPT !.rec[o.k] = TRUE]) ELSE Out("skip", st)
+\* any peer that is not the node's own server: foreign roots, a certificate minted for another nonce, no nonce,
+\* wrong extended key usage, self-signed, with or without mimicking the library's ALPN
+RogueKinds == {"foreign", "staleNonce", "noNonce", "wrongEku", "selfSigned", "foreignNoAlpn", "foreignExtraAlpn", "nextRootNotYetValid"}
+DoRogue(st, o) == IF st.cert[o.k] \notin {"fresh", "stale"} THEN Out("skip", st) ELSE Out("error", st)
+\* the server rotates its roots once the node's second chain has become valid (real time): the node keeps one recognised chain
+DoRotateWait(st) == Out("ok", st)
+
 DoEnroll(st, o) ==   \* operator-authorised enrolment of a brand-new identity
   IF st.cert[o.k] # "none" THEN Out("skip", st)
   ELSE Out("ok", [st EXCEPT !.rec[o.k] = TRUE, !.cert[o.k] = "fresh"])
@@ -69,6 +80,9 @@ DoConnect(st, c) ==
 \* honest node dialing with protocol.Dial (extras / state only shape the metadata)
 DoDial(st, o) ==
   IF st.cert[o.k] = "none" THEN Out("skip", st)
+  ELSE IF st.cert[o.k] = "pending" THEN
+       (IF st.rec[o.k] THEN Out("auth", [st EXCEPT !.cert[o.k] = "fresh"])     \* first dial after authorisation: fetch, then authenticate
+        ELSE Out("notauth", st))                                                \* ErrNotAuthorized, nothing stored
   ELSE IF st.rec[o.k] /\ st.cert[o.k] = "fresh" THEN Out("auth", st) ELSE Out("temperr", st)
 
 \* malformed / hostile input of class o.cls: always a per-connection failure
@@ -80,6 +94,10 @@ Apply(st, o) ==
     [] o.op = "Reinit" -> DoReinit(st)
     [] o.op = "Connect" -> DoConnect(st, o)
     [] o.op = "Dial" -> DoDial(st, o)
+    [] o.op = "NewNode" -> DoNewNode(st, o)
+    [] o.op = "AuthorizePending" -> DoAuthorizePending(st, o)
+    [] o.op = "Rogue" -> DoRogue(st, o)
+    [] o.op = "RotateWait" -> DoRotateWait(st)
     [] o.op = "Malformed" -> DoMalformed(st, o)
 
 (* universes *)
@@ -96,6 +114,14 @@ MalClasses == {"empty", "short1", "short2", "nob64", "b64rand", "b64trunc", "ove
                "nontls", "dropAfterHello", "dropMidHello", "silentClose", "wrappedShort", "hugeEntry", "prefOnly",
                "clientAlert", "resetMidHello", "resetAfterHello", "rawSslv2", "rawOversizeRecord", "rawHttp", "rawBadVersion"}
 MalPrefixes == {"fetch", "auth", "pref"}
+
+(***************************************************************************)
+(* C07 (node side)                                                         *)
+(***************************************************************************)
+AllowedC07(st, o, res, credsUnchanged) ==
+  /\ (o.op = "Rogue" => res # "conn")
+  /\ (o.op = "Dial" /\ st.cert[o.k] = "pending" /\ ~st.rec[o.k] => res = "notauth" /\ credsUnchanged)
+  /\ (o.op = "Dial" /\ st.rec[o.k] /\ st.cert[o.k] \in {"pending", "fresh"} => res = "auth")
 
 (***************************************************************************)
 (* C02                                                                     *)
